@@ -1,6 +1,6 @@
 (* Proofs for C20 (Model/IsolationModel.v against Spec/IsolationSpec.v). *)
 From Coq Require Import String ZArith List Bool Lia.
-From HV Require Import Gen.GenCopies Spec.IsolationSpec Model.IsolationModel.
+From HV Require Import Gen.GenCopies Gen.GenFrontierFlow Spec.IsolationSpec Model.IsolationModel.
 Import ListNotations.
 Open Scope Z_scope.
 
@@ -212,6 +212,104 @@ Proof.
   intros Hb. rewrite all_complete.
   - induction n; cbn; [reflexivity | f_equal; assumption].
   - induction n; constructor; assumption.
+Qed.
+
+(* ================================================================ Part C: per-test configuration *)
+
+Section ConfiguredProofs.
+Variable fc : Z -> Z -> Z.
+Variable cstep : Z -> Z -> list Z.
+Variable sd : Z -> Z.
+Variable cc : Z.
+(* the exploring config does not depend on the running test *)
+Hypothesis fc_const : forall a b, fc cc a = fc cc b.
+
+Lemma run_tests_c_const ts : forall c,
+  run_tests_c fc cstep sd cc ts c = run_tests (sys_of cstep sd (fc cc 0)) (map ct_test ts) c.
+Proof.
+  induction ts as [|t ts IH]; intros c; [reflexivity|].
+  cbn [run_tests_c map run_tests]. unfold run_test_c. rewrite (fc_const (ct_cfg t) 0).
+  destruct (run_test (sys_of cstep sd (fc cc 0)) (ct_test t) c) as [p c1]. rewrite IH. reflexivity.
+Qed.
+
+Lemma run_contract_c_const s0 ts :
+  run_contract_c fc cstep sd cc s0 ts = run_contract (sys_of cstep sd (fc cc 0)) s0 (map ct_test ts).
+Proof. unfold run_contract_c, run_contract. rewrite run_tests_c_const. reflexivity. Qed.
+
+Theorem order_independent_c s0 pre t :
+  Forall (fun u => t_budget (ct_test u) = None \/ t_depth (ct_test u) = O) pre ->
+  t_budget (ct_test t) = None ->
+  nth (length pre) (run_contract_c fc cstep sd cc s0 (pre ++ [t])) []
+  = spec_paths (sys_of cstep sd (fc cc 0)) (t_body (ct_test t)) s0 (t_depth (ct_test t)).
+Proof.
+  intros Hpre Hb. rewrite run_contract_c_const, map_app. cbn [map].
+  rewrite <- (map_length ct_test pre). apply order_independent; [|exact Hb].
+  apply Forall_forall. intros u Hu. apply in_map_iff in Hu. destruct Hu as [x [<- Hx]].
+  rewrite Forall_forall in Hpre. exact (Hpre x Hx).
+Qed.
+
+Theorem alone_c s0 t :
+  t_budget (ct_test t) = None ->
+  hd [] (run_contract_c fc cstep sd cc s0 [t])
+  = spec_paths (sys_of cstep sd (fc cc 0)) (t_body (ct_test t)) s0 (t_depth (ct_test t)).
+Proof.
+  intros Hb. pose proof (order_independent_c s0 [] t (Forall_nil _) Hb) as H.
+  cbn [length app] in H. rewrite <- H.
+  destruct (run_contract_c fc cstep sd cc s0 [t]); reflexivity.
+Qed.
+
+Theorem schedule_independent_c s0 pre t :
+  Forall (fun u => t_budget (ct_test u) = None \/ t_depth (ct_test u) = O) pre ->
+  t_budget (ct_test t) = None ->
+  nth (length pre) (run_contract_c fc cstep sd cc s0 (pre ++ [t])) []
+  = hd [] (run_contract_c fc cstep sd cc s0 [t]).
+Proof. intros Hpre Hb. rewrite order_independent_c, alone_c by assumption. reflexivity. Qed.
+End ConfiguredProofs.
+
+(* what the code does (Gen/GenFrontierFlow.v): the exploring config is the contract's *)
+Lemma frontier_cfg_const cc a b : frontier_cfg cc a = frontier_cfg cc b.
+Proof. reflexivity. Qed.
+
+Lemma frontier_cfg_contract cc a : frontier_cfg cc a = cc.
+Proof. reflexivity. Qed.
+
+Theorem order_config cstep sd cc s0 pre t :
+  Forall (fun u => t_budget (ct_test u) = None \/ t_depth (ct_test u) = O) pre ->
+  t_budget (ct_test t) = None ->
+  nth (length pre) (run_contract_c frontier_cfg cstep sd cc s0 (pre ++ [t])) []
+  = hd [] (run_contract_c frontier_cfg cstep sd cc s0 [t]).
+Proof. apply schedule_independent_c. intros a b. apply frontier_cfg_const. Qed.
+
+Theorem alone_config cstep sd cc s0 t :
+  t_budget (ct_test t) = None ->
+  hd [] (run_contract_c frontier_cfg cstep sd cc s0 [t])
+  = spec_paths (mkSystem (cstep cc) sd) (t_body (ct_test t)) s0 (t_depth (ct_test t)).
+Proof.
+  intros Hb. rewrite (alone_c frontier_cfg cstep sd cc (fun a b => frontier_cfg_const cc a b) s0 t Hb).
+  rewrite frontier_cfg_contract. reflexivity.
+Qed.
+
+Theorem frontier_flow_facts :
+  explore_cfg_src = SrcContract /\ frontier_test_inputs = [] /\ cache_key_depth_only = true.
+Proof. repeat split; reflexivity. Qed.
+
+(* conversely: were the frontier explored under the RUNNING test's config while the cache stays keyed
+   by the depth, the result of a completed test would depend on which test filled the cache.
+   bump(n) on a counter explored with loop bound e reaches s+1 .. s+e; contract bound 2;
+   t1 is annotated with bound 3, t2 is not; both assert counter < 3. *)
+Definition cfgw_cstep (e s : Z) : list Z := map (fun k => s + Z.of_nat k) (seq 1 (Z.to_nat e)).
+Definition cfgw_body (s : Z) : list Z := [if s <? 3 then 0 else 1].
+Definition cfgw_t1 : ctest := mkCTest 3 (mkTest 1 cfgw_body None).
+Definition cfgw_t2 : ctest := mkCTest 2 (mkTest 1 cfgw_body None).
+
+Theorem test_cfg_in_shared_frontier_refutes_isolation :
+  exists (cstep : Z -> Z -> list Z) (sd : Z -> Z) (cc s0 : Z) (t1 t2 : ctest),
+    t_budget (ct_test t1) = None /\ t_budget (ct_test t2) = None /\
+    verdict_of (nth 1 (run_contract_c (pick_cfg SrcTest) cstep sd cc s0 [t1; t2]) []) = 1 /\
+    verdict_of (hd [] (run_contract_c (pick_cfg SrcTest) cstep sd cc s0 [t2])) = 0.
+Proof.
+  exists cfgw_cstep, (fun s => s), 2, 0, cfgw_t1, cfgw_t2.
+  repeat split; vm_compute; reflexivity.
 Qed.
 
 (* F10: a test whose consumer loop breaks (budget) leaves a partial frontier in the cache;
